@@ -234,6 +234,8 @@ def replay_case(case):
     if case.get("stream_kind"):
         return [(k + f"|stream={case['stream_kind']}", d) for k, d in judge(bytes.fromhex(case["stream"]), case["cfg"], None, case["stream_kind"])[0]]
     data = bytes.fromhex(case["stream"])
+    if case.get("suffix"):
+        return [(k + case["suffix"], d) for k, d in judge(data, case["cfg"])[0]]
     devs = {int(k): v for k, v in case["devs"].items()} if case.get("devs") else None
     out, _ = judge(data, case["cfg"], devs)
     return [(k + "|short_read", d) for k, d in out] if devs else out
@@ -298,6 +300,32 @@ def eval_block(block, acc):
                             acc.outcomes[(len(r.items), ("variants",))] += 1
                             for key, detail in out:
                                 acc.violation(key, {"iter": True, "stream": data.hex(), "cfg": cfg}, detail)
+        return
+    elif kind == "collide":
+        # frames that agree in class, ID, length AND checksum bytes but not in payload: Fletcher collisions (+1,-2,+1
+        # on three consecutive payload bytes) and copies with one payload byte changed under the old checksum
+        from mc.refmodel import core as ref
+        cid = bytes.fromhex(block[1])
+        tail = streams.seq_bytes(("Uack",))
+        for n in (3, 4, 8, 12, 28):
+            base = bytes((5 * i + 2) % 200 + 2 for i in range(n))
+            for i in range(0, n - 2):
+                alt = bytearray(base)
+                alt[i] += 1
+                alt[i + 1] -= 2
+                alt[i + 2] += 1
+                fa, fb = ref.frame(cid[0], cid[1], base), ref.frame(cid[0], cid[1], bytes(alt))
+                assert fa[-2:] == fb[-2:] and fa != fb
+                bad = bytearray(fa)
+                bad[6 + i] ^= 0x10  # same header and checksum bytes, other payload: a corrupted copy
+                for data in (fa + fb + tail, fa + fb + fa + fb, fa + bytes(bad) + tail, bytes(bad) + fa + bytes(bad)):
+                    for cfg in COVER:
+                        out, r = judge(data, cfg)
+                        acc.evaluations += 1
+                        acc.transitions += len(r.items) + 1
+                        acc.outcomes[(len(r.items), ("collide",))] += 1
+                        for key, detail in out:
+                            acc.violation(key + "|frames_with_equal_header_and_checksum", {"stream": data.hex(), "cfg": cfg, "suffix": "|frames_with_equal_header_and_checksum"}, detail)
         return
     elif kind == "programs":
         # every program of <= 3 consumption operations (read / next / for left after one item / for run out),
@@ -451,6 +479,7 @@ def run_tier(tier, t0):
     blocks += [("pause", f) for f in streams.FRAME_TOKENS]
     blocks += [("variants", i, 8) for i in range(8)]
     blocks += [("programs", f) for f in streams.FRAME_TOKENS]
+    blocks += [("collide", c) for c in ("0501", "0107", "9901", "0a04")]
     blocks += [("socklong", i) for i in range(16)]
     acc = engine.sweep(blocks, eval_block)
     engine.finish(
@@ -460,7 +489,7 @@ def run_tier(tier, t0):
             f"length<={L_cover} x 6 covering configurations"
             + (f", length<={L_def} x default configuration" if L_def else "")
             + f"; all token sequences of length<={k} over {len(alphabet)} tokens (frames, noise, preamble fragments) x 6 configurations. "
-            "Consumption programs: every program of <= 3 operations from {read(), next(reader), for statement left after one item, for statement run out} followed by a draining for statement, 19 first tokens x 3 five-token streams x {BytesIO, BufferedReader, non-seekable} x 2 configurations (raw items consecutive slices over the whole session). "
+            "Collisions: streams of 2-4 frames that agree in class, ID, length and checksum bytes but not in payload (Fletcher collisions, and copies corrupted under the old checksum), 4 class/IDs x 5 lengths x every position x 6 configurations. Consumption programs: every program of <= 3 operations from {read(), next(reader), for statement left after one item, for statement run out} followed by a draining for statement, 19 first tokens x 3 five-token streams x {BytesIO, BufferedReader, non-seekable} x 2 configurations (raw items consecutive slices over the whole session). "
             "distinct_nontrivial = distinct (number of items, set of protocols delivered) outcome classes"
         ),
         assumptions=[
